@@ -31,7 +31,18 @@ library's page (`poke`) before the comparison, and checked directly instead: the
 there only in the access-date / modification time / date fields (bytes 18-19, 22-25).  Directly on the device as well
 (independent of the model): every other byte outside the clusters of the directory's chain is unchanged - the frame theorem
 C01_volchain_frame.  An op the model declines ("na": the directory would grow, the entry owns clusters or is a directory)
-re-synchronises the model on the library's pages."""
+re-synchronises the model on the library's pages.
+
+SUB-DIRECTORY WITH GROWTH AND OUT-OF-SPACE (run_grow_stream; Model/VolChainGrow.v vol_create_file_grow, theorems C01_volchain_grow_*,
+C03_volchain_grow_*, C05_volchain_grow_*): small FAT12 volumes (geometry through the library's own boot-sector hook,
+vlib.sectors_for_clusters) and one FAT16 volume; create_file of names needing 2 .. 21 slots inside "sub" until the directory has grown
+several times ("grow" sessions), until the volume is full with 0 .. 3 clusters left for the directory ("full" sessions: both the
+success and the NotEnoughSpace-after-a-prefix-of-the-run outcomes, also a 21-slot run that needs TWO clusters when one is left), and
+with several creates inside ONE mount (the FS-info hint carried from one allocation to the next).  After every mount .. unmount
+bracket the whole device is compared with the model's image (as above: parent-entry stamp poked and checked on the device), the
+outcomes are compared, and Spec/Wf.wf_issues is evaluated on the device image: no issue after successes; after NotEnoughSpace at
+most ONE issue, an orphan long-name run in that directory (the recorded class `nospace-during-entry-write`, which the model
+reproduces byte for byte: C03_volchain_grow_nospace_residue) - anything else is a failing input."""
 import hashlib
 import vlib, namelib, fatimg
 from vlib import hexs
@@ -349,6 +360,7 @@ def run_stream(rep, tier, seed):
         "model_outcomes": kinds, "device_pages_compared": pages_total, "status_write_compared_ops": nmark[0], "status_write_marked": nmark[1],
         "longest_model_only_chain_per_history": [chained[j][0] for j in sorted(chained)]}
     nviol += run_sub_stream(rep, tier, seed)
+    nviol += run_grow_stream(rep, tier, seed)
     return nviol
 
 
@@ -574,4 +586,308 @@ def run_sub_stream(rep, tier, seed):
         "histories": nhist, "configs": [c[0] for c in SUB_CONFS[:min(nhist, len(SUB_CONFS))]], "ops_compared_whole_device": ncmp,
         "disagreements": nviol, "frame_failures_on_device": nframe, "declined_by_model_na": nna, "model_outcomes": kinds,
         "parent_stamp_bytes_changed_by_library": nstamp, "duplicate_long_names_in_final_listing": ndup}
+    return nviol
+
+
+# ---------------------------------------------------------------------------------------------------------------------------
+CORR_GROW = ("Model/VolChainGrow.v vol_create_file_grow (model cvol cgrow; C01_volchain_grow_create_decodes, C03_volchain_grow_keeps_wf, "
+             "C03_volchain_grow_nospace_residue, C05_volchain_grow_accounting) vs src/dir.rs write_entry + src/file.rs File::write + "
+             "src/fs.rs alloc_cluster(zero) on the whole device image")
+GROW_LENS = [1, 5, 12, 13, 14, 26, 27, 40, 66, 130, 200, 247, 248, 255]
+_grow_geoms = {}
+
+
+def grow_conf(bps, bpc, clusters, fill):
+    """(name, device bytes, format tokens, fill) of a volume with exactly [clusters] data clusters (library's own sizing)"""
+    key = (bps, bpc, clusters)
+    if key not in _grow_geoms:
+        _grow_geoms[key] = vlib.sectors_for_clusters(bps, bpc, clusters, max(16, clusters * (bpc // bps)))
+    r = _grow_geoms[key]
+    if r is None:
+        return None
+    ts, bits = r
+    return ("fat%d-%dclusters-%db-grow" % (bits, clusters, bpc), ts * bps + 4096, "%d %d %d - - - - - -" % (bps, ts, bpc), fill)
+
+
+def grow_name(serial, n):
+    base = "g%03d" % serial
+    return base if n <= len(base) else base + "-" + "x" * (n - len(base) - 1)
+
+
+def gen_grow_session(rng, kind, conf_clusters, cluster_size):
+    """-> prelude lines (inside one mount, after create_dir sub), brackets = list of lists of ops; op = ("create", name) |
+    ("remove", name) | ("clock", ...)"""
+    prelude = []
+    brackets = []
+    serial = [0]
+    live = []
+    def create(n):
+        serial[0] += 1
+        nm = grow_name(serial[0], n)
+        live.append(nm)
+        return ("create", nm)
+    if kind == "grow":
+        n = 16 + rng.below(14)
+        for _ in range(n):
+            r = rng.below(100)
+            if r < 8:
+                brackets.append([("clock", 1980 + rng.below(128), 1 + rng.below(12), 1 + rng.below(28), rng.below(24), rng.below(60), rng.below(60), rng.below(1000))])
+            elif r < 20 and live:
+                t = rng.choice(live); live.remove(t)
+                brackets.append([("remove", t.upper() if rng.chance(1, 3) else t)])
+            elif r < 26 and live:
+                brackets.append([("create", rng.choice(live).upper())])          # exists: Ok, nothing written
+            else:
+                brackets.append([create(rng.choice(GROW_LENS))])
+    elif kind == "partial":
+        # deterministic family: ONE cluster left, the directory filled to 14 of its 16 slots (512-byte clusters), then a 21-slot run:
+        # the first allocation succeeds, the second fails - NotEnoughSpace after the directory has grown by a cluster
+        prelude = ["create_file 0 %s 5" % hexs("filler.bin"), "write_pat 5 %d 3" % ((conf_clusters - 2) * cluster_size), "drop_file 5"]
+        per = cluster_size // 32
+        for _ in range((per - 2) // 3):
+            brackets.append([create(14)])
+        brackets.append([create(255)])
+        brackets.append([create(255)])
+        brackets.append([create(1)])
+    elif kind == "multi":
+        for _ in range(5 + rng.below(4)):
+            brackets.append([create(rng.choice([13, 26, 40, 66, 130, 255])) for _ in range(2 + rng.below(3))])
+    else:                                # "full": leave k clusters free behind the filler
+        k = rng.below(4)
+        used_by_sub = 1
+        filler = conf_clusters - used_by_sub - k
+        prelude = ["create_file 0 %s 5" % hexs("filler.bin"), "write_pat 5 %d 3" % (filler * cluster_size), "drop_file 5"]
+        slots_per_cluster = cluster_size // 32
+        # fill the directory up to a random distance from the end of its last cluster, then long runs
+        for _ in range((k + 1) * slots_per_cluster // 3 + 2 + rng.below(4)):
+            r = rng.below(100)
+            if r < 10 and live:
+                t = rng.choice(live); live.remove(t)
+                brackets.append([("remove", t)])
+            elif r < 45:
+                brackets.append([create(rng.choice([14, 26, 27, 40]))])
+            elif r < 75:
+                brackets.append([create(rng.choice([66, 130, 200]))])
+            else:
+                brackets.append([create(rng.choice([247, 248, 255]))])
+        for _ in range(4):
+            brackets.append([create(rng.choice([5, 13, 26, 130, 255]))])
+    return prelude, brackets
+
+
+def build_grow_script(conf, prelude, brackets):
+    name, dev, fmt, fill = conf
+    lines = ["dev %d %d" % (dev, fill), "wlog 0", "format " + fmt, "pages", "clock %d %d %d %d %d %d %d" % CLOCK0,
+             "mount 1 0 lossy", "create_dir 0 %s 1" % hexs("sub"), "drop_dir 1"] + prelude + ["unmount", "pages"]
+    pp = len(lines) - 1
+    marks = []                    # per bracket: ([result line index per op or None for clock], pages line index or None)
+    h = 10
+    for br in brackets:
+        if br[0][0] == "clock":
+            lines.append("clock %d %d %d %d %d %d %d" % br[0][1:]); marks.append(([None], None)); continue
+        lines.append("mount 1 0 lossy")
+        ris = []
+        for op in br:
+            if op[0] == "create":
+                lines.append("create_file 0 %s %d" % (hexs("sub/" + op[1]), h)); ris.append(len(lines) - 1)
+                lines.append("drop_file %d" % h); h += 1
+            else:
+                lines.append("remove 0 %s" % hexs("sub/" + op[1])); ris.append(len(lines) - 1)
+        lines += ["unmount", "pages"]
+        marks.append((ris, len(lines) - 1))
+    lines += ["mount 1 0 lossy", "open_dir 0 %s 2" % hexs("sub"), "list 2", "unmount"]
+    return lines, 3, pp, marks, len(lines) - 2
+
+
+def run_grow_stream(rep, tier, seed):
+    rng = vlib.Rng(seed * 32452843 + 17)
+    plan_kinds = (["partial", "grow", "full", "multi", "full", "grow", "full"] if tier == "quick" else
+                  ["partial", "partial"] + ["grow", "full", "multi", "full"] * 15)
+    confs = [c for c in (grow_conf(512, 512, 9, 0xD1), grow_conf(512, 512, 14, 0), grow_conf(512, 1024, 7, 0xFF),
+                         grow_conf(1024, 1024, 11, 0), grow_conf(512, 512, 23, 0xE5)) if c is not None]
+    big = grow_conf(512, 512, 4200, 0)          # FAT16: growth only
+    jobs = []
+    for i, kind in enumerate(plan_kinds):
+        conf = confs[i % len(confs)]
+        if kind == "grow" and big is not None and i % 8 == 4:
+            conf = big
+        ncl = int(conf[0].split("-")[1].replace("clusters", ""))
+        csz = int(conf[0].split("-")[2].replace("b", ""))
+        prelude, brackets = gen_grow_session(rng, kind, ncl, csz)
+        lines, pf, pp, marks, li = build_grow_script(conf, prelude, brackets)
+        jobs.append((conf, kind, brackets, lines, pf, pp, marks, li))
+    results = vlib.run_scripts([j[3] for j in jobs])
+    utable, table = namelib.upper_table("default")
+    mlines = ["upper " + table]
+    plan = []
+    for ji, (conf, kind, brackets, lines, pf, pp, marks, li) in enumerate(jobs):
+        res = results[ji]
+        fill = conf[3]
+        if res[pp].kind != "ok" or 0 not in pages_of(res[pp]):
+            rep.violation("[cvol-grow] %s: the prelude (format, create_dir sub, filler) failed" % conf[0],
+                          {"theorem_or_correspondence": CORR_GROW, "script": lines[:pp + 1]}, nofail=True)
+            continue
+        prev = pp
+        clock = CLOCK0
+        g = fatimg.Geom(bytes.fromhex(pages_of(res[pp])[0])[:64])
+        # the model is synchronised on the library's device ONCE (after the prelude) and from then on works on its own image: the
+        # sessions compare CHAINS of calls; the first disagreement ends the evaluation of a session (no cascade)
+        mlines.append(img_line(fill, pages_of(res[pp]))); plan.append(None)
+        mlines.append("cdir " + SUB_SFN.hex()); plan.append(("chain", ji, 0))
+        for bi, br in enumerate(brackets):
+            ris, pi = marks[bi]
+            if br[0][0] == "clock":
+                clock = br[0][1:]; continue
+            if any(res[ri].kind in ("skipped", "bad", "hang", "panic") for ri in ris) or res[pi].kind != "ok":
+                break
+            after = pages_of(res[pi])
+            mlines.append("fi - -"); plan.append(None)
+            for oi, op in enumerate(br):
+                if op[0] == "create":
+                    mlines.append("cgrow %s %d %d %d %d %d %d %d" % ((hexs(op[1]),) + tuple(clock)))
+                else:
+                    mlines.append("cremove %s" % hexs(op[1]))
+                plan.append(("op", ji, bi, oi))
+            so = sub_slot_off(after, fill, g)
+            mlines.append("poke %d %s" % (so if so is not None else g.root_off, dev_bytes(after, fill, so, 32).hex() if so is not None else ""))
+            plan.append(("cmp", ji, bi, prev, g, so))
+            mlines.append("wf"); plan.append(("wf", ji, bi))
+            prev = pi
+    out = vlib.model_run("cvol", "\n".join(mlines) + "\n")[1:]
+    assert len(out) == len(plan), (len(out), len(plan))
+    ncmp = nviol = nops = ngrow = ngrow2 = nnospace = nresidue = nframe = nna = nwf = npartial = 0
+    kinds = {}
+    chains = {}
+    grown_per_session = {}
+    state = {}                     # (ji, bi) -> dict
+    for k, pl in enumerate(plan):
+        if pl is None:
+            continue
+        tag, ji, bi = pl[0], pl[1], pl[2]
+        conf, kind, brackets, lines, pf, pp, marks, li = jobs[ji]
+        res = results[ji]
+        fill = conf[3]
+        ris, pi = marks[bi]
+        sess = state.setdefault(("sess", ji), {"bad": False, "chain": None})
+        mo = out[k].split(" ")
+        if mo and mo[0] == "stale":
+            mo = mo[1:]
+        st = None if tag == "chain" else state.setdefault((ji, bi), {"nospace": False, "na": False, "chain0": sess["chain"], "chain1": sess["chain"]})
+        if tag == "chain":
+            if mo[0] != "ok":
+                sess["bad"] = True; nviol += 1
+                rep.violation("[cvol-grow] %s: the model's decode of the library's device does not show the directory SUB in the root" % conf[0],
+                              {"theorem_or_correspondence": CORR_GROW, "script": lines[:pi + 1]}, nofail=True)
+            else:
+                sess["chain"] = [int(x) for x in mo[1].split(",")]
+            continue
+        if sess["bad"]:
+            continue
+        if tag == "op":
+            oi = pl[3]
+            op = brackets[bi][oi]
+            ir = res[ris[oi]]
+            rep.count(); nops += 1
+            itag = "ok" if ir.kind == "ok" else (ir.kind + " " + ir.payload.split()[0] if ir.payload else ir.kind)
+            if mo[0] == "na":
+                st["na"] = True; sess["bad"] = True; nna += 1          # cremove of something this model does not cover: the chain of calls ends
+                continue
+            if mo[0] in ("ok", "exists"):
+                mtag = "ok"
+            elif mo[0] == "err":
+                mtag = "err " + mo[1]
+            else:
+                mtag = mo[0]
+            kinds[op[0] + " " + (mo[0] if mo[0] != "err" else mtag)] = kinds.get(op[0] + " " + (mo[0] if mo[0] != "err" else mtag), 0) + 1
+            ch = [t for t in mo if t.startswith("chain=")]
+            if ch:
+                newchain = [int(x) for x in ch[0][6:].split(",")]
+                d = len(newchain) - len(st["chain1"])
+                if d >= 1:
+                    ngrow += 1; grown_per_session[ji] = grown_per_session.get(ji, 0) + d
+                if d >= 2:
+                    ngrow2 += 1
+                st["chain1"] = newchain; sess["chain"] = newchain
+            if mtag == "err NotEnoughSpace":
+                st["nospace"] = True; nnospace += 1
+                if ch and d >= 1:
+                    npartial += 1
+            if mtag != itag:
+                sess["bad"] = True; nviol += 1
+                if nviol <= 3:
+                    rep.violation("[cvol-grow] %s (%s session): model and implementation disagree on the outcome of %s %r inside the directory sub: "
+                                  "model %s / library %s" % (conf[0], kind, op[0], op[1][:40], mtag, itag),
+                                  {"theorem_or_correspondence": CORR_GROW, "script": lines[:pi + 1]}, nofail=True)
+            continue
+        if tag == "cmp":
+            prev, g, so = pl[3], pl[4], pl[5]
+            if st["na"]:
+                continue
+            before, after = pages_of(res[prev]), pages_of(res[pi])
+            ncmp += 1
+            lib = md5s(after)
+            mod = parse_digest(mo[1:])
+            if lib != mod:
+                sess["bad"] = True; nviol += 1
+                diff = sorted(o for o in set(lib) | set(mod) if lib.get(o) != mod.get(o))
+                if nviol <= 3:
+                    rep.violation("[cvol-grow] %s (%s session): after %r inside the directory sub (chain %s -> %s) %d device page(s) differ between "
+                                  "model and library%s" % (conf[0], kind, [(o[0], o[1][:24]) for o in brackets[bi]], st["chain0"], st["chain1"], len(diff),
+                                                           (" (first at offset %d)" % diff[0]) if diff else ""),
+                                  {"theorem_or_correspondence": CORR_GROW, "script": lines[:pi + 1]}, nofail=True)
+                continue
+            # ---- directly on the device: outside the FAT copies, the clusters of the directory's chain AFTERWARDS and the stamp fields
+            # of its own entry nothing changes (frame clause of C01_volchain_grow_create_decodes)
+            lo = [g.cluster_off(c) for c in st["chain1"]]
+            fat_lo, fat_hi = g.fat_off, g.root_off
+            blank = "%02x" % fill * 4096
+            bad = None
+            for o in sorted(set(before) | set(after)):
+                a, b = before.get(o, blank), after.get(o, blank)
+                if a == b:
+                    continue
+                for i in range(4096):
+                    if a[2 * i:2 * i + 2] != b[2 * i:2 * i + 2]:
+                        x = o + i
+                        if fat_lo <= x < fat_hi or any(c0 <= x < c0 + g.cluster_size for c0 in lo):
+                            continue
+                        if so is not None and so <= x < so + 32 and (x - so) in (18, 19, 22, 23, 24, 25):
+                            continue
+                        bad = x; break
+                if bad is not None:
+                    break
+            if bad is not None:
+                nframe += 1
+                rep.violation("[cvol-grow] %s: creates inside the directory sub (chain %s -> %s) changed device byte %d, which lies neither in a FAT "
+                              "copy, nor in a cluster of the directory, nor in the stamp fields of its own entry" % (conf[0], st["chain0"], st["chain1"], bad),
+                              {"script": lines[:pi + 1]})
+            rep.distinct(("cvol-grow", conf[0], kind, tuple(o[1] for o in brackets[bi]), tuple(st["chain1"]), lib.get(max(lib)) if lib else None))
+            continue
+        if tag == "wf":
+            if st["na"]:
+                continue
+            nwf += 1
+            n = int(mo[0])
+            issues = [x for x in mo[2:] if x]
+            dirc = st["chain0"][0]
+            allowed = 1 if st["nospace"] else 0
+            orphan_here = [x for x in issues if x.startswith("OrphanLfn(%d," % dirc)]
+            # orphan runs left by EARLIER out-of-space failures of this session stay (nothing removes them): count per bracket
+            prev_orphans = state.get(("orph", ji), 0)
+            if len(issues) != len(orphan_here) or len(orphan_here) > prev_orphans + allowed:
+                nviol += 1
+                rep.violation("[cvol-grow] %s (%s session): after %r inside the directory sub the device has well-formedness issues %s "
+                              "(allowed: orphan long-name runs of the directory, at most one new one per NotEnoughSpace)"
+                              % (conf[0], kind, [(o[0], o[1][:24]) for o in brackets[bi]], issues[:6]), {"script": lines[:pi + 1]})
+            if len(orphan_here) > prev_orphans:
+                nresidue += 1
+            state[("orph", ji)] = len(orphan_here)
+    rep.cov["cvol_growth_correspondence"] = {
+        "sessions": len(jobs), "kinds": {k_: plan_kinds.count(k_) for k_ in set(plan_kinds)}, "configs": sorted(set(j[0][0] for j in jobs)),
+        "calls_compared": nops, "brackets_compared_whole_device": ncmp, "disagreements": nviol, "frame_failures_on_device": nframe,
+        "creates_that_grew_the_directory": ngrow, "creates_that_grew_by_two_clusters": ngrow2,
+        "clusters_grown_per_session": [grown_per_session.get(j, 0) for j in range(len(jobs))],
+        "not_enough_space_outcomes": nnospace, "not_enough_space_after_the_directory_grew_by_a_cluster": npartial,
+        "brackets_leaving_a_new_orphan_run": nresidue, "wf_evaluations_on_device": nwf,
+        "declined_by_model_na": nna, "model_outcomes": kinds}
     return nviol
